@@ -10,7 +10,7 @@ READY = True
 META = {
     "technique": "Lean 4 proof (model of ops::coerce/add/sub/mul/int_div/rem/pow/neg/int_as_value over the four integer representations and Bool: exact-or-error, total on the signed 128-bit range, width independent, Euclid law; ** for every exponent; float + - * / proved exactly rounded for ALL finite operands (overflow to the infinity of the right sign exactly from f64::MAX + ulp/2 on, subnormals included) on a bit-pattern model whose rounding function is proved round-to-nearest-even; tests, filters and string parsing modelled; final form `C08_main`: the full statement follows from ONE named hypothesis, unary minus at 2^127, which is the recorded finding; `cmp_zero_signs_equal`: -0.0, 0.0 and the integer 0 of every width are one number for all six operators) + differential run of the model against the real engine + exact-integer/rational and IEEE oracle",
     "category": "proof",
-    "text": "The full statement is FALSE on the pinned code at exactly one operand, proved as `C08_counterexample : ¬ C08_full` (unary minus of 2^127 stored as u128 returns +2^127; kept as a recorded known finding because an existing snapshot pins it); everything else is proved as `C08_holds_partial` with that operand as an explicit hypothesis of the unary-minus exactness clause only. Kernel-checked theorems about the Lean model of minijinja's integer arithmetic (every representation U64/I64/U128/I128, every well-formed payload): a successful + - * // % ** or unary minus returns the mathematically exact integer, the operation succeeds whenever operands and result fit the signed 128-bit range (divisor non-zero, exponent non-negative), the outcome depends only on the mathematical operands and not on the stored width, and // and % satisfy q*b + r = a with 0 <= r < |b|. Round 5: ** completely (`pow_exact`, `pow_total_in_range` for EVERY non-negative exponent of the 128-bit range - two defects fixed on the way: 1 ** 2^32 failed, commit 3a8d5c6 - `pow_large_exponent_error`: an exponent >= 128 with |base| >= 2 is an error whatever its low 32 bits, `pow_negative_exponent_error`); Bool operands (`bool_operand_as_u64`: in every binary operator a Bool is exactly the u64 0/1, hence exact, total and width independent; `neg_bool_error`; `bool_eq_number_exact`; `bool_before_every_number`: the ordering operators compare the kinds first); the tests odd / even / divisibleby on every integer representation (`odd_exact`, `even_exact`, `divisibleby_exact`: the same % as the operator, i128::MIN divisibleby -1 included, `tests_width_independent`), min / max on integer/float mixes (`min_max_exact`), round on integers; strings through the int filter (`int_text_sound`: str::parse::<i128> accepts an optional sign and ASCII digits only - no blanks, `_`, radix prefixes; `int_filter_string_sound`: the only other way to an integer is the exact truncation of an accepted float text; `int_text_exact`: sign, leading zeros, digits -> that integer; `int_text_overflow_is_error`: an integer text outside i128 is an error, never the neighbour its float approximation truncates to - second defect fixed, commit ab4512f); floats: `round_to_nearest_even` - the rounding function of the model returns a double nearest to p/q, the even one on a tie, against every bit pattern - hence float + - * / are exactly rounded (`float_add_rounded`, `float_sub_rounded`, `float_mul_rounded`, `float_div_rounded`) and exact when the result is a double (`float_*_exact`), decimal texts are read correctly rounded (`float_text_rounded_*`), and the IEEE 754-2008 special cases of ** hold as a table (`float_pow_special_table`). Integer literals: the Lean model of Tokenizer::eat_number is proved to read every well-formed spelling as the token for its value and to reject values >= 2^128. Finite doubles are bit patterns with exact dyadic values (no Float): int/float comparison is proved exact for all i64/u64/i128/u128 x non-NaN doubles, int->float conversion exact below 2^53 and within half an ulp with ties to even above, float % and // produce the Euclidean remainder/quotient of the exact values whenever those are representable, int-of-float exact or error. The model is tied to /repo by ~5*10^5 (quick) cases - the boundary zoo squared, a representation box (24 core values in every pair of forms under every operator, comparison, filter and test), ** on [-17,17] x [0,130] plus the overflow edge of every exponent and exponents around and beyond 2^32, Bool operands everywhere, float arithmetic aimed at ties / cancellation / overflow / underflow, float ** on all class pairs, round(precision), strings around every boundary - run through Expression::eval, template rendering, a run-time (unfoldable) variant and 17 other features / entry points, and through the compiled Lean model (0 disagreements on ~95% of the cases, the rest is libm pow and consistency-only functions); an independent Python oracle (unbounded ints, Fractions, IEEE doubles) adjudicates. Session 4: `C08_main (h : NegOf2p127Exact) : C08_full ∧ C08_full_num` (integer clauses + comparison exact + float Euclid law) with `C08_main_gap_is_open : ¬ NegOf2p127Exact ∧ (NegOf2p127Exact ↔ C08_full)` - the gap between the code and the full statement is exactly that one operand; `cmp_zero_signs_equal` / `zero_signs_table` / `cmp_f64_zero_signs_equal` (the `left == right` guard of cmp_f64 is what keeps -0.0 from sorting below 0: `totalCmp negZero 0 = .lt`). New generator axes: NEGATIVE ZERO as literal (three spellings, bare and parenthesised minus), variable (f64, serde f64, f32, serde f32) and COMPUTED operand (new operand form `fexp:(X<op>Y)=bits`: `0.0*(-1)`, `(-4.0)%2.0`, `(-0.0)/3`, `(-6)%2.0`, underflowing products) in every two-operand comparison against every zero (each integer form, +0.0 literal / variable / computed) and the nearest non-zero numbers, in first / middle / last position of chains under all 36 operator pairs, and in the tests / select / reject / selectattr under all 15 names; COMPUTED OPERANDS in general: every nested case `(A op1 B) op2 C` now carries the engine's inner value and the outer operator is judged by the full oracle on (that value, C) instead of by consistency only; FLOAT RESULTS AS TEXT: every float result is read back from its rendered text and has to be the same number (no digit lost on the way out; shortness and notation are not demanded).",
+    "text": "The full statement is FALSE on the pinned code at exactly one operand, proved as `C08_counterexample : ¬ C08_full` (unary minus of 2^127 stored as u128 returns +2^127; kept as a recorded known finding because an existing snapshot pins it); everything else is proved as `C08_holds_partial` with that operand as an explicit hypothesis of the unary-minus exactness clause only. Kernel-checked theorems about the Lean model of minijinja's integer arithmetic (every representation U64/I64/U128/I128, every well-formed payload): a successful + - * // % ** or unary minus returns the mathematically exact integer, the operation succeeds whenever operands and result fit the signed 128-bit range (divisor non-zero, exponent non-negative), the outcome depends only on the mathematical operands and not on the stored width, and // and % satisfy q*b + r = a with 0 <= r < |b|. Round 5: ** completely (`pow_exact`, `pow_total_in_range` for EVERY non-negative exponent of the 128-bit range - two defects fixed on the way: 1 ** 2^32 failed, commit 3a8d5c6 - `pow_large_exponent_error`: an exponent >= 128 with |base| >= 2 is an error whatever its low 32 bits, `pow_negative_exponent_error`); Bool operands (`bool_operand_as_u64`: in every binary operator a Bool is exactly the u64 0/1, hence exact, total and width independent; `neg_bool_error`; `bool_eq_number_exact`; `bool_before_every_number`: the ordering operators compare the kinds first); the tests odd / even / divisibleby on every integer representation (`odd_exact`, `even_exact`, `divisibleby_exact`: the same % as the operator, i128::MIN divisibleby -1 included, `tests_width_independent`), min / max on integer/float mixes (`min_max_exact`), round on integers; strings through the int filter (`int_text_sound`: str::parse::<i128> accepts an optional sign and ASCII digits only - no blanks, `_`, radix prefixes; `int_filter_string_sound`: the only other way to an integer is the exact truncation of an accepted float text; `int_text_exact`: sign, leading zeros, digits -> that integer; `int_text_overflow_is_error`: an integer text outside i128 is an error, never the neighbour its float approximation truncates to - second defect fixed, commit ab4512f); floats: `round_to_nearest_even` - the rounding function of the model returns a double nearest to p/q, the even one on a tie, against every bit pattern - hence float + - * / are exactly rounded (`float_add_rounded`, `float_sub_rounded`, `float_mul_rounded`, `float_div_rounded`) and exact when the result is a double (`float_*_exact`), decimal texts are read correctly rounded (`float_text_rounded_*`), and the IEEE 754-2008 special cases of ** hold as a table (`float_pow_special_table`). Integer literals: the Lean model of Tokenizer::eat_number is proved to read every well-formed spelling as the token for its value and to reject values >= 2^128. Finite doubles are bit patterns with exact dyadic values (no Float): int/float comparison is proved exact for all i64/u64/i128/u128 x non-NaN doubles, int->float conversion exact below 2^53 and within half an ulp with ties to even above, float % and // produce the Euclidean remainder/quotient of the exact values whenever those are representable, int-of-float exact or error. The model is tied to /repo by ~5*10^5 (quick) cases - the boundary zoo squared, a representation box (24 core values in every pair of forms under every operator, comparison, filter and test), ** on [-17,17] x [0,130] plus the overflow edge of every exponent and exponents around and beyond 2^32, Bool operands everywhere, float arithmetic aimed at ties / cancellation / overflow / underflow, float ** on all class pairs, round(precision), strings around every boundary - run through Expression::eval, template rendering, a run-time (unfoldable) variant and 17 other features / entry points, and through the compiled Lean model (0 disagreements on ~95% of the cases, the rest is libm pow and consistency-only functions); an independent Python oracle (unbounded ints, Fractions, IEEE doubles) adjudicates. Session 4: `C08_main (h : NegOf2p127Exact) : C08_full ∧ C08_full_num` (integer clauses + comparison exact + float Euclid law) with `C08_main_gap_is_open : ¬ NegOf2p127Exact ∧ (NegOf2p127Exact ↔ C08_full)` - the gap between the code and the full statement is exactly that one operand; `cmp_zero_signs_equal` / `zero_signs_table` / `cmp_f64_zero_signs_equal` (the `left == right` guard of cmp_f64 is what keeps -0.0 from sorting below 0: `totalCmp negZero 0 = .lt`). New generator axes: NEGATIVE ZERO as literal (three spellings, bare and parenthesised minus), variable (f64, serde f64, f32, serde f32) and COMPUTED operand (new operand form `fexp:(X<op>Y)=bits`: `0.0*(-1)`, `(-4.0)%2.0`, `(-0.0)/3`, `(-6)%2.0`, underflowing products) in every two-operand comparison against every zero (each integer form, +0.0 literal / variable / computed) and the nearest non-zero numbers, in first / middle / last position of chains under all 36 operator pairs, and in the tests / select / reject / selectattr under all 15 names; COMPUTED OPERANDS in general: every nested case `(A op1 B) op2 C` now carries the engine's inner value and the outer operator is judged by the full oracle on (that value, C) instead of by consistency only; the INT/FLOAT COMPARISON BOX (every core integer in every integer form x the doubles at and next to it, twice and half of it - the power of two just above a type maximum is where the saturating casts of cmp_f64_i128 / cmp_f64_u128 bite - in every float form incl. computed, all six operators, chains); FLOAT RESULTS AS TEXT: every float result is read back from its rendered text and has to be the same number (no digit lost on the way out; shortness and notation are not demanded).",
     "design_ref": "DESIGN.md §3 C08",
     "level_note": "Trusted: Lean kernel; hand transcription of ops.rs (coerce, int_as_value, add, sub, mul, div, int_div, rem, pow, neg, as_f64, f64_div_euclid), of i128::try_from(Value) incl. its Bool and float arms, of filters abs/int/float/round/sum/min/max, tests odd/even/divisibleby, str::parse::<i128>/<f64> and of Tokenizer::eat_number into MJ/Model/{Num,NumF,NumLex,NumX}.lean (comparisons: C07's MJ/Model/Cmp.lean), validated differentially on every generated case they cover; source facts the model duplicates (neg's special constant, the checked_* method of each operator, the exponent conversion and unit-base arm of pow, the lexer's prefix table and parsing calls, `x % 2 != 0`, wrapping_rem, the parse steps of the int filter, f64_to_int's limit, `val as usize`) are regenerated from /repo and re-proved equal on every run. Rust's i128::checked_* and from_str are modelled by their contract; IEEE operations by exact-result-then-round (encodeRat, proved to be round-to-nearest-even). Validated only (model or oracle, no theorem): round(precision) (bit-exact model built from the proved-rounded * and /), powf outside the special cases and exact small powers (libm, within 1 ulp), odd/even/divisibleby on floats, that f64::from_str itself is correctly rounded (the model is, the engine agrees on every case), range, batch, `~`, filesizeformat/truncate/indent arguments (consistency across widths only). MOVED FROM VALIDATED TO PROVED in session 4: the equality of the zeros of either sign under every comparison operator (`cmp_zero_signs_equal`, `zero_signs_table`: was an instance of `cmp_ops_exact` nobody had stated; the seeded change C08-7 lives exactly there), the role of cmp_f64's guard (`cmp_f64_zero_signs_equal`), and the final form: `C08_main` makes the distance between what is proved and the full statement ONE named hypothesis (`NegOf2p127Exact`, refuted on the current code by `C08_main_gap_is_open` = the recorded known finding; every other clause of `C08_full` and the comparison / float-Euclid sentence `C08_full_num` are discharged by audited theorems). float + - * / as TOTAL theorems (`float_add_total`, `float_sub_total`, `float_mul_total`, `float_div_total` over `encodeRat_overflow_iff`: the rounding function saturates to infinity EXACTLY when the value is at least (2^54 - 1) * 2^2044 units of 2^-1074 = f64::MAX + ulp/2, where the tie goes to the even neighbour 2^1024; so for every pair of finite operands the result is finite iff the exact result is below that threshold in magnitude, then it is the round-to-nearest-even double - subnormal and zero results included, the low branch of encodeRat is the integer grid - and otherwise it is the infinity with the sign of the exact result; before, the rounding theorems carried the hypothesis `isFinite result`). NOT MODELLED IN LEAN, ORACLE ONLY: the decimal text of a float result (Rust's `Display for f64`, shortest round-trip): validated by reading every float result back (Python float(), correctly rounded) on ~10^5 float results per quick run; float literal lexing is modelled and proved correctly rounded (`float_text_rounded_*`) for mantissa * 10^e, |e| <= 400. A regenerated-table tie for the shape of cmp_f64 (guard before total order) was considered and left out: it would only turn a source-shape change into `no-failing-input-found`, while the behaviour is reached by ~2*10^4 negative-zero cases.",
 }
@@ -1127,6 +1127,9 @@ def run(r):
               "(integer forms, +0.0, -0.0) and the nearest non-zero numbers x 6 comparisons both ways, chains with -0.0 in first / middle / last "
               "position x 36 operator pairs, tests / select / reject / selectattr; nested cases `(A op1 B) op2 C` judged by the full oracle on the "
               "engine's inner value (computed operands), targeted at inner zeros of either sign; every float result read back from its rendered text; "
+              "the INT/FLOAT comparison box: every core value in every integer form (serde twins included) against the double it rounds to, "
+              "both neighbours, its double and its half, in every float form (literal, f64, serde f64, f32 where exact, computed) x 6 "
+              "comparisons in alternating order + two chains; odd / even on every zoo float and its neighbours in every float form; "
               "a case is non-trivial when it is distinct and the exact result is defined")
     r.assumptions = ["Rust's i128::checked_add/sub/mul/pow/div_euclid/rem_euclid return the exact result or None (std contract)",
                      "IEEE-754 binary64 +, -, *, /, fmod, trunc, round are the exact result rounded to nearest-even (the Lean float model encodes exactly that; validated bit-for-bit against the engine on every float case, and against Python's float arithmetic)",
@@ -1178,6 +1181,9 @@ def run(r):
         n_width += sh.n_width
     if r.evaluations != len(cases) and not r.broken:
         r.broken.append(f"{len(cases)} cases generated but {r.evaluations} judged")
+    # every failure site / disagreeing operator with its count (the histograms of the evidence keep the 40 largest only)
+    r.extra["failure_sites"] = dict(sorted(r.hist["failure-site"].items())) if "failure-site" in r.hist else {}
+    r.extra["disagreement_ops"] = dict(sorted(r.hist["disagreement-op"].items())) if "disagreement-op" in r.hist else {}
     r.extra["model_compared"] = n_model
     r.extra["distinct_operand_pairs"] = n_width
     r.extra["shards"] = len(jobs)
